@@ -817,8 +817,8 @@ func specHexOKAt(s string, k int) bool {
 //@ loop 0 invariant[bytes] forall(0, len(opBytes), func(k int) bool { return opBytes[k] == byte(specHexAt(opStr, k)) && specHexOKAt(opStr, k) })
 //@ ensures[len@C01+C03] result1 == nil ==> 2*len(result0) == len(op.Byte)
 //@ ensures[odd@C01+C03] len(op.Byte)&1 == 1 ==> result1 != nil
-//@ ensures[digits] result1 == nil ==> forall(0, len(result0), func(k int) bool { return specHexOKAt(op.Byte, k) })
-//@ ensures[bytes] result1 == nil ==> forall(0, len(result0)-1, func(k int) bool { return result0[k] == byte(specHexAt(op.Byte, k)) })
+//@ ensures[I.digits] result1 == nil ==> forall(0, len(result0), func(k int) bool { return specHexOKAt(op.Byte, k) })
+//@ ensures[I.bytes] result1 == nil ==> forall(0, len(result0)-1, func(k int) bool { return result0[k] == byte(specHexAt(op.Byte, k)) })
 //@ ensures[last.plain] result1 == nil && len(result0) > 0 && op.Addend == nil ==> result0[len(result0)-1] == byte(specHexAt(op.Byte, len(result0)-1))
 //@ ensures[last.plusr] result1 == nil && len(result0) > 0 && op.Addend != nil && 0 <= regNum && regNum <= 7 && specHexAt(op.Byte, len(result0)-1)&7 == 0 ==> int(result0[len(result0)-1]) == specHexAt(op.Byte, len(result0)-1)+regNum
 
